@@ -51,6 +51,8 @@ def render_op(act, args):
         return "a[-%d]=%s" % (args[0], q(args[1]))
     if act == "append":
         return "a+=(%s)" % q(args[0])
+    if act == "appendstr":
+        return "a+=%s" % q(args[0])
     if act == "unset":
         return "unset 'a[%d]'" % args[0]
     if act == "clear":
